@@ -4,19 +4,12 @@
 //!     id \t model_op \t args \t impl_output
 //! The extracted Coq model (driver) recomputes the output from args and compares.
 mod util;
-mod c19;
 
 use std::io::{BufRead, BufWriter, Write};
 use std::panic::{catch_unwind, AssertUnwindSafe};
 use util::*;
 
-fn run_impl(op: &str, a: &Args) -> Option<Args> {
-    let prop = op.split('.').next().unwrap_or("");
-    match prop {
-        "c19" => c19::run(op, a),
-        _ => None,
-    }
-}
+include!(concat!(env!("OUT_DIR"), "/registry.rs"));
 
 fn run_guarded(op: &str, a: &Args) -> String {
     match catch_unwind(AssertUnwindSafe(|| run_impl(op, a))) {
@@ -49,9 +42,8 @@ fn main() {
                 writeln!(tw, "{}\t{}", c.op, c.tag).unwrap();
                 n += 1;
             };
-            match prop.as_str() {
-                "c19" => c19::generate(tier, &mut r, &mut emit),
-                _ => { eprintln!("unknown property {prop}"); std::process::exit(2); }
+            if !generate(prop.as_str(), tier, &mut r, &mut emit) {
+                eprintln!("unknown property {prop}"); std::process::exit(2);
             }
             w.flush().unwrap();
             tw.flush().unwrap();
